@@ -19,7 +19,7 @@ NMTOOLS_TESTING_DECLARE_CASE(index, conv_reshape_input)
     }
     NMTOOLS_TESTING_DECLARE_EXPECT(case1)
     {
-        // batch, 1 (to bcast w/ n_output), groups, channel, plane
+        // batch, groups, 1 (to bcast w/ n_output per group), channel per group, plane
         inline int result[5] = {1,1,1,5,4};
     }
 
@@ -85,7 +85,8 @@ NMTOOLS_TESTING_DECLARE_CASE(index, conv_reshape_weight)
     }
     NMTOOLS_TESTING_DECLARE_EXPECT(case3)
     {
-        inline int result[5] = {2,1,1,3,3};
+        // groups, n_output per group, channel per group, planes
+        inline int result[5] = {1,2,1,3,3};
     }
 
     NMTOOLS_TESTING_DECLARE_ARGS(case4)
@@ -97,7 +98,7 @@ NMTOOLS_TESTING_DECLARE_CASE(index, conv_reshape_weight)
     }
     NMTOOLS_TESTING_DECLARE_EXPECT(case4)
     {
-        inline int result[5] = {4,1,3,3,3};
+        inline int result[5] = {1,4,3,3,3};
     }
 
     NMTOOLS_TESTING_DECLARE_ARGS(case5)
